@@ -52,6 +52,7 @@ impl<A: smallvec::Array<Item = u8>> Parse for SmallString<A> {
 				let mut result = Self::new();
 				let mut high_surrogate: Option<(usize, u32)> = None;
 				loop {
+					let p_next = parser.position;
 					let c = match parser.next_char()? {
 						(p, Some('"')) => {
 							if let Some((p_high, high)) = high_surrogate {
@@ -159,7 +160,7 @@ impl<A: smallvec::Array<Item = u8>> Parse for SmallString<A> {
 							result.push('\u{fffd}');
 						} else {
 							break Err(Error::MissingLowSurrogate(
-								Span::new(p_high, parser.position),
+								Span::new(p_high, p_next),
 								high as u16,
 							));
 						}
